@@ -20,6 +20,7 @@ import (
 	openfgav1 "github.com/openfga/api/proto/openfga/v1"
 
 	"github.com/openfga/openfga/internal/telemetry"
+	"github.com/openfga/openfga/internal/utils/apimethod"
 	"github.com/openfga/openfga/pkg/middleware/validator"
 	serverconfig "github.com/openfga/openfga/pkg/server/config"
 	servererrors "github.com/openfga/openfga/pkg/server/errors"
@@ -558,6 +559,12 @@ func (s *Server) ActionSearch(ctx context.Context, req *authzenv1.ActionSearchRe
 	defer end()
 
 	authorizationModelID := getAuthorizationModelIDFromHeader(ctx)
+
+	// The relations are evaluated through BatchCheck below; authorize the caller for it before
+	// the authorization model of the store is read.
+	if err := s.checkAuthz(ctx, req.GetStoreId(), apimethod.BatchCheck); err != nil {
+		return nil, err
+	}
 
 	// Resolve typesystem to get all relations for the resource type
 	typesys, err := s.resolveTypesystem(ctx, req.GetStoreId(), authorizationModelID)
